@@ -27,6 +27,55 @@ PLAN = {
         ],
         "require_counters": {"all": ["gcs_that_freed", "audits"]},
     },
+    "C04": {
+        "level": "exploration",
+        "exhaustive": True,
+        "rule": "n=3, {bdd,bcdd} x 6 orders x threads {1,4} (zbdd: restrict only): exists/forall/unique x all 256 f x all 8 "
+                "variable sets; restrict x all f x all 27 literal cubes; apply_exists/forall/unique x operand pairs (quick 1/32 "
+                "sample, thorough all 65536) x 8 operators x 7 sets, compared with the model and with the two-step OxiDD result; "
+                "substitute x 17^3 replacement vectors (16-function palette or unsubstituted per variable; quick 1/8 sample) x all "
+                "f with ONE Subst object reused for all 256 f; alternating substitutions on the same variable with gc between; "
+                "random instances n=4..8. distinct = distinct (kind, op, operands, set/cube/vector, order) with non-constant result.",
+        "assumptions": ["truth-table model is the specification"],
+        "jobs": [
+            {"monitor": "c04_exh", "variant": "rel", "shards": 30},
+            {"monitor": "c04_rand", "variant": "rel", "shards": 16},
+            {"monitor": "c04_rand", "variant": "dbg", "shards": 8},
+        ],
+        "require_counters": {"all": ["gc_between_substitutions"]},
+    },
+    "C09": {
+        "level": "exploration",
+        "exhaustive": True,
+        "rule": "zbdd, n=3, 6 orders x threads {1,4}: empty/base/singleton; subset0/subset1/change x 256 families x 3 variables; "
+                "union/intsec/diff x all 65536 pairs; make_node for every variable and every (hi,lo) whose variables lie below it; "
+                "random families over 2..8 variables with add_vars between operations, family view vs interp vs eval. distinct = "
+                "distinct (operation, operands, order) with non-empty result.",
+        "assumptions": ["set definitions from the BooleanVecSet rustdoc, written pointwise on bit vectors"],
+        "jobs": [
+            {"monitor": "c09_exh", "variant": "rel", "shards": 12},
+            {"monitor": "c09_rand", "variant": "rel", "shards": 16},
+            {"monitor": "c09_rand", "variant": "dbg", "shards": 8},
+        ],
+        "require_counters": {"all": ["add_vars", "make_node_calls"]},
+    },
+    "C13": {
+        "level": "exploration",
+        "exhaustive": True,
+        "rule": "{bdd,bcdd,zbdd} x 6 orders, n=3: all 256 functions x all 8 choice vectors (pick_cube and pick_cube_dd, choice "
+                "protocol: once per level, node of that level) x all 27 literal sets (pick_cube_dd_set), judged by a reference walk "
+                "over truth tables (forced / free / irrelevant per level); random n=4..8; pick_cube_uniform: no non-model, chi-square "
+                "vs uniform over models on fixed seeds (threshold at z=6.2). distinct = distinct (kind, function, choice vector or "
+                "literal set, order) where a real choice existed.",
+        "assumptions": ["uniformity is a statistical statement (fixed seeds, p<1e-9 threshold)"],
+        "jobs": [
+            {"monitor": "c13_exh", "variant": "rel", "shards": 18},
+            {"monitor": "c13_rand", "variant": "rel", "shards": 16},
+            {"monitor": "c13_rand", "variant": "dbg", "shards": 8},
+            {"monitor": "c13_uniform", "variant": "rel", "shards": 7},
+        ],
+        "require_counters": {"all": ["uniform_draws"]},
+    },
     "C08": {
         "level": "exploration",
         "exhaustive": True,
@@ -62,6 +111,29 @@ PLAN = {
 HOOK_COMMITS = []
 
 MANIFEST_TEXT = {
+    "C04": {
+        "text": "Held on every executed case: exhaustive over 3 variables for the plain quantifiers, restrict and (thorough) "
+                "the combined apply-quantify forms; 17^3 substitution vectors with a reused Subst object; interleaved "
+                "substitutions across gc; seeded random instances up to 8 variables, 1 and 4 threads, tiny and large caches.",
+        "design_ref": "DESIGN.md section 5 / C04",
+        "note": "Trusted: truth-table model. ZBDD has no quantifier/substitution API (restrict only).",
+        "technique": "runtime monitoring: reference-model oracle over exhaustive n=3 + seeded random executions",
+    },
+    "C09": {
+        "text": "Held on every executed case: all families over 3 variables for every set operation and make_node under all "
+                "orders; random families with variables added between operations, family/Boolean views cross-checked.",
+        "design_ref": "DESIGN.md section 5 / C09",
+        "note": "Trusted: set-level definitions written in the monitor.",
+        "technique": "runtime monitoring: set-family reference model over exhaustive n=3 + seeded random histories",
+    },
+    "C13": {
+        "text": "Held on every executed case: exhaustive over 3 variables (functions x choice vectors x literal sets x orders x "
+                "kinds) against a reference walk that classifies each level as forced / free / irrelevant; statistical test of "
+                "pick_cube_uniform on fixed seeds.",
+        "design_ref": "DESIGN.md section 5 / C13",
+        "note": "Trusted: truth tables, reference walk. 'Arbitrary choice' cases accept any value. ZBDD judged by the weaker documented contract.",
+        "technique": "runtime monitoring: reference-walk oracle over exhaustive n=3, random n<=8, chi-square test for uniform sampling",
+    },
     "C01": {
         "text": "Held on every generated history: after each of several thousand steps per run the result handle is compared "
                 "pairwise (==, Hash, Ord) with all live handles against independent truth tables, across gc, add_vars, "
